@@ -177,6 +177,25 @@ def run_tlc(module, cfg, env=None, workers=1, simulate=None, depth=None, seed=No
     return res
 
 
+# --------------------------------------------------------------------------- TLA+ values printed by TLC
+
+
+def parse_history_dump(text, var="h"):
+    """Read the history variable (a sequence of flat records of strings/integers) of every state of a TLC
+    state dump (-dump).  TLC prints record fields in its own order, so records are parsed field by field."""
+    out = []
+    for m in re.finditer(r"^/\\ %s = <<(.*?)>>\n(?=/\\|\n|$)" % re.escape(var), text, re.M | re.S):
+        body = m.group(1)
+        evs = []
+        for rm in re.finditer(r"\[([^\[\]]*)\]", body):
+            rec = {}
+            for fm in re.finditer(r'(\w+) \|-> (?:"([^"]*)"|(-?\d+))', rm.group(1)):
+                rec[fm.group(1)] = fm.group(2) if fm.group(3) is None else int(fm.group(3))
+            evs.append(rec)
+        out.append(evs)
+    return out
+
+
 # --------------------------------------------------------------------------- traces
 
 
